@@ -156,6 +156,12 @@ def run(ctx):
     lines5 = ["a", "", PRAG[0], PRAG[1], "- b"]
     import itertools
     pdocs = ["\n".join(c) for n in range(1, 6 if ctx.tier == "thorough" else 5) for c in itertools.product(lines5, repeat=n)]
+    # three and more pragma lines with text between them (the re-insertion counts lines from the previous pragma on)
+    for n in (6, 7):
+        for bits in itertools.product((0, 1), repeat=n):
+            if sum(bits) >= 3 and bits[0] == 0:
+                pdocs.append("\n".join((PRAG[i % 2] if b else "ab"[i % 2]) for i, b in enumerate(bits)) + "\n")
+    pdocs = list(dict.fromkeys(pdocs))
     pres = impl.pmap(_regen, pdocs, chunksize=128)
     cases = []
     for d, (st, m) in zip(pdocs, pres):
